@@ -41,6 +41,9 @@ type Route struct {
 	Reject  int    `json:"reject_status,omitempty"`
 	Cond    string `json:"cond"`
 	Src     string `json:"src"`
+	// for a handler with the meta.User signature that is a function/method of a loaded package: does its body
+	// mention the user parameter at all? "yes" | "no" | "unknown"
+	UsesUser string `json:"uses_user"`
 }
 
 type WrapRule struct {
@@ -352,6 +355,7 @@ func main() {
 		fmt.Fprintln(os.Stderr, "httpd package not loaded")
 		os.Exit(1)
 	}
+	allPkgs = pkgs
 	for _, p := range pkgs {
 		scanRoutes(repo, p, httpd)
 	}
@@ -589,7 +593,74 @@ func emitRoute(repo string, p *packages.Package, fields map[string]ast.Expr, h a
 			r.Sig = classifyType(info.TypeOf(h))
 		}
 	}
+	r.UsesUser = "unknown"
+	if r.Sig == "user" && h != nil {
+		r.UsesUser = usesUser(p, h)
+	}
 	out.Routes = append(out.Routes, r)
+}
+
+var allPkgs []*packages.Package
+
+// usesUser: resolve the handler expression to a function declaration and look for a use of its third parameter
+func usesUser(p *packages.Package, h ast.Expr) string {
+	var id *ast.Ident
+	switch x := h.(type) {
+	case *ast.SelectorExpr:
+		id = x.Sel
+	case *ast.Ident:
+		id = x
+	case *ast.FuncLit:
+		return funcUsesThird(p.TypesInfo, x.Type, x.Body)
+	default:
+		return "unknown"
+	}
+	fn, ok := p.TypesInfo.Uses[id].(*types.Func)
+	if !ok {
+		return "unknown"
+	}
+	for _, q := range allPkgs {
+		if q.Types != fn.Pkg() {
+			continue
+		}
+		for _, f := range q.Syntax {
+			for _, d := range f.Decls {
+				fd, ok := d.(*ast.FuncDecl)
+				if ok && q.TypesInfo.Defs[fd.Name] == fn && fd.Body != nil {
+					return funcUsesThird(q.TypesInfo, fd.Type, fd.Body)
+				}
+			}
+		}
+	}
+	return "unknown"
+}
+
+func funcUsesThird(info *types.Info, ft *ast.FuncType, body *ast.BlockStmt) string {
+	var names []*ast.Ident
+	for _, f := range ft.Params.List {
+		if len(f.Names) == 0 {
+			names = append(names, nil)
+		}
+		names = append(names, f.Names...)
+	}
+	if len(names) != 3 {
+		return "unknown"
+	}
+	if names[2] == nil || names[2].Name == "_" {
+		return "no"
+	}
+	obj := info.Defs[names[2]]
+	used := false
+	ast.Inspect(body, func(n ast.Node) bool {
+		if i2, ok := n.(*ast.Ident); ok && info.Uses[i2] == obj {
+			used = true
+		}
+		return !used
+	})
+	if used {
+		return "yes"
+	}
+	return "no"
 }
 
 func findMethod(p *packages.Package, recv, name string) (*ast.FuncDecl, *ast.File) {
